@@ -61,7 +61,7 @@ def modelFh (o : Fh) : String :=
   let h2 := fillHistogram o.a o.acc o.sparse h1 (o.pixB.zip (o.mask ++ List.replicate o.n true))
   showHist h2
 
-/-- Spec key: channels divided by the bin width, with rounding `fl` (floor) or truncation -/
+/-- Spec key: channels divided by the bin width (C++ integer division truncates; `fl` = floor is no longer accepted by the judge) -/
 def specKey (fl : Bool) (a : FillArgs) (px : List Int) : Key :=
   let scaled := px.map fun ch => if fl then ch / a.bw else Int.tdiv ch a.bw
   if a.sel.isEmpty then scaled else a.sel.map fun i => scaled.getD i 0
@@ -91,8 +91,8 @@ def judgeFh (o : Fh) (obs : String) : String :=
   match parseBins (words obs) with
   | none => "fail not-a-histogram:" ++ obs.take 40
   | some impl =>
-    let s1 := specFh true o; let s2 := specFh false o
-    if sameHist impl s1 || sameHist impl s2 then "ok"
+    let s1 := specFh false o          -- the key is the C++ (truncating) quotient ch / bin_width
+    if sameHist impl s1 then "ok"
     else
       let negative := (o.pixA ++ o.pixB).any fun p => p.any (· < 0)
       if o.acc && !o.sparse && dim o.a o.pixB == 1 then "fail accumulate-adds-to-previous-contents"
@@ -128,7 +128,7 @@ def argsOf (o : Simple) (sel : List Nat) : FillArgs :=
   { c := o.c, bw := o.bw, sel := sel, applymask := false, setlimits := false, lower := [], upper := [] }
 
 def filled (o : Simple) (sel : List Nat) : Hist := fill (argsOf o sel) [] (o.pix.map fun p => (p, true))
-def specFilled (fl : Bool) (o : Simple) (sel : List Nat) : Hist := specFill fl (argsOf o sel) [] (o.pix.map fun p => (p, true))
+def specFilled (_fl : Bool) (o : Simple) (sel : List Nat) : Hist := specFill false (argsOf o sel) [] (o.pix.map fun p => (p, true))
 
 def f64 (c tot : Nat) : Float := Float.ofNat c / Float.ofNat tot
 
@@ -230,10 +230,111 @@ def parseSt (line : String) : Option (String × Nat × List Int) :=
     | _, _ => none
   | _ => none
 
+/-! cumulative of fractional bins (cn) and std::vector two-step sequences (sv) -/
+
+structure Cn where
+  o : Simple
+  quarter : Bool
+
+def parseCn (line : String) : Option Cn :=
+  match words line with
+  | "cn" :: vt :: sel :: bw :: mode :: rest =>
+    (parseSimple (" ".intercalate ("cu" :: vt :: sel :: bw :: rest))).map fun o => { o := o, quarter := mode == "q" }
+  | _ => none
+
+def cnDims (c : Cn) : Nat := if c.o.sel.isEmpty then c.o.nc else c.o.sel.length
+def q20 (x : Float) : Int := (Float.floor (x * 1048576.0 + 0.5)).toInt64.toInt
+
+def modelCn (c : Cn) : String :=
+  let h := filled c.o c.o.sel
+  if h.isEmpty then "-" else
+  if c.quarter then
+    -- weights count/4: the printed value*4 is the cumulative histogram of the counts (sums of quarters are exact in double)
+    let r := cumulativeW (cnDims c) (h.map fun kv => (kv.1, (kv.2 : Int)))
+    " ".intercalate ((sortW r).map fun kv => showKey kv.1 ++ ":" ++ toString kv.2)
+  else
+    let r := cumulativeW (cnDims c) ((sortHist h).map fun kv => (kv.1, f64 kv.2 h.mass))
+    " ".intercalate ((sortW r).map fun kv => showKey kv.1 ++ ":" ++ toString (q20 kv.2))
+
+def judgeCn (c : Cn) (obs : String) : String :=
+  if obs == "-" then (if c.o.n = 0 then "ok" else "fail shape") else
+  let parts := (words obs).map fun w => w.splitOn ":"
+  let vals := parts.filterMap fun p => match p with
+    | [k, v] => match parseKey k, v.toInt? with
+      | some k, some v => some (k, v)
+      | _, _ => none
+    | _ => none
+  if vals.length ≠ parts.length then "fail cumulative-bin-is-dominance-sum(not-a-number)" else
+  let spec := specFilled false c.o c.o.sel
+  let tot : Int := spec.mass
+  let unit : Int := if c.quarter then tot else 1048576          -- printed value of the total
+  let tol : Int := if c.quarter then 0 else 2
+  let close := fun (a b : Int) => (a - b).natAbs ≤ tol.toNat
+  let expected := fun (k : Key) =>
+    let dom : Int := ((spec.filter fun kv => tupleCompare kv.1 k).map (·.2)).sum
+    if c.quarter then dom else q20 (Float.ofInt dom / Float.ofInt tot)
+  if sortHist (vals.map fun kv => (kv.1, 0)) ≠ sortHist (spec.map fun kv => (kv.1, 0)) then "fail cumulative-keeps-the-keys"
+  else if vals.any (fun a => vals.any fun b => tupleCompare a.1 b.1 && decide (a.2 > b.2 + tol)) then "fail cumulative-monotone"
+  else if (match vals.find? (fun a => vals.all fun b => tupleCompare b.1 a.1) with
+           | some top => !(close top.2 unit) | none => false) then "fail cumulative-last-bin-is-total"
+  else if vals.any (fun kv => !(close kv.2 (expected kv.1))) then "fail cumulative-bin-is-dominance-sum"
+  else "ok"
+
+structure Sv where
+  size1 : Nat        -- 0: no first fill
+  size2 : Nat
+  init : List Nat
+  p1 : List Int
+  p2 : List Int
+
+def vtSize : String → Nat
+  | "g8" => 256 | "g16" => 65536 | _ => 0
+
+def parseSv (line : String) : Option Sv :=
+  match splitOn' "|" (words line) with
+  | ["sv", vt1, vt2, _w, _h, _ps] :: init :: p1 :: [p2] =>
+    match ints init, ints p1, ints p2 with
+    | some init, some p1, some p2 =>
+      if vtSize vt2 = 0 then none else some { size1 := vtSize vt1, size2 := vtSize vt2, init := init.map Int.toNat, p1 := p1, p2 := p2 }
+    | _, _, _ => none
+  | _ => none
+
+def showVec (v : List Nat) : String :=
+  toString v.length ++ " : " ++ " ".intercalate (v.zipIdx.filterMap fun (ci : Nat × Nat) => if ci.1 ≠ 0 then some (toString ci.2 ++ ":" ++ toString ci.1) else none)
+
+def modelSv (o : Sv) : String :=
+  let v1 := if o.size1 = 0 then o.init else vectorFill o.size1 [] o.p1     -- non-accumulate: clear, resize, count
+  showVec (vectorFill o.size2 v1 o.p2)                                    -- accumulate: resize(max+1) keeps / truncates, count
+
+/-- Spec: a non-accumulating fill replaces, an accumulating fill ADDS to what the vector held: every previous entry survives -/
+def judgeSv (o : Sv) (obs : String) : String :=
+  match splitOn' ":" (words (obs.replace ":" " : ")) with
+  | [sz] :: _ =>
+    let toks := (words obs).drop 2
+    match toks.mapM (fun w => match w.splitOn ":" with
+        | [i, c] => match i.toNat?, c.toNat? with | some i, some c => some (i, c) | _, _ => none
+        | _ => none) with
+    | none => "fail not-a-histogram"
+    | some bins =>
+      let prev : List (Nat × Nat) :=
+        if o.size1 = 0 then (o.init.zipIdx.filterMap fun (ci : Nat × Nat) => if ci.1 ≠ 0 then some (ci.2, ci.1) else none)
+        else (o.p1.eraseDups.map fun v => (v.toNat, (o.p1.filter (· == v)).length))
+      let add : List (Nat × Nat) := o.p2.eraseDups.map fun v => (v.toNat, (o.p2.filter (· == v)).length)
+      let keys := ((prev ++ add).map (·.1)).eraseDups
+      let look := fun (l : List (Nat × Nat)) (k : Nat) => (((l.filter (·.1 == k)).map (·.2)).sum : Nat)
+      let total := fun (l : List (Nat × Nat)) => ((l.map (·.2)).sum : Nat)
+      if sz.toNat?.getD 0 < o.size2 then "fail vector-has-one-bin-per-channel-value"
+      else if total bins ≠ total prev + total add then "fail accumulate-adds-to-previous-contents"
+      else if keys.any (fun k => look bins k ≠ look prev k + look add k) then "fail bin-exactness"
+      else "ok"
+  | _ => "fail shape"
+
 def model (line : String) : String :=
   match (words line).head? with
   | some "fh" | some "hk" => match parseFh line with | some o => modelFh o | none => "bad-op"
   | some "st" => match parseSt line with | some (vt, n, p) => modelSt vt n p | none => "bad-op"
+  | some "cn" => match parseCn line with | some c => modelCn c | none => "bad-op"
+  | some "sv" => match parseSv line with | some o => modelSv o | none => "bad-op"
   | some _ => match parseSimple line with | some o => modelSimple o | none => "bad-op"
   | none => "bad-op"
 
@@ -242,6 +343,8 @@ def judge (op obs : String) : String :=
   match (words op).head? with
   | some "fh" | some "hk" => match parseFh op with | some o => judgeFh o obs | none => "fail bad-op"
   | some "st" => match parseSt op with | some (vt, _, p) => judgeSt vt p obs | none => "fail bad-op"
+  | some "cn" => match parseCn op with | some c => judgeCn c obs | none => "fail bad-op"
+  | some "sv" => match parseSv op with | some o => judgeSv o obs | none => "fail bad-op"
   | some _ => match parseSimple op with | some o => judgeSimple o obs | none => "fail bad-op"
   | none => "fail bad-op"
 
